@@ -318,6 +318,14 @@ pub unsafe extern "C" fn waitpid(pid: pid_t, status: *mut c_int, options: c_int)
     };
     let (ret, dev) = match d {
         Decision::Fail(e) => {
+            // World consistency: a wait on a live tracee can only fail with EINTR (nothing consumed).
+            // Any other injected failure is modelled as "the stop was consumed, the call reported an
+            // error": otherwise the tracee would be left attached-but-not-yet-stopped, a state in which
+            // PTRACE_DETACH answers ESRCH and which no real execution of this code can reach.
+            if e != libc::EINTR {
+                let mut tmp: c_int = 0;
+                let _ = f(pid, &mut tmp, options);
+            }
             set_errno(e);
             (-1, true)
         }
